@@ -542,7 +542,7 @@ class Rewriter:
         b = self.sub('R16:len-call', r'\bself\.len\(\)', 'self.len', b)
         b = self.sub('R16:guard-new', r'SetLenOnDrop::new\(\s*&mut self\.len\s*\)', 'SetLenOnDrop::new(self.len)', b)
         b = self.sub('R16:ptr-offset', r'\b(\w+)\.offset\((-?\d+)\)', r'idx_offset(\1, \2)', b)
-        b = self.sub('R16:for-underscore', r'\bfor _ in\b', 'for i__ in', b)
+        b = self.sub('R16:for-underscore', r'\bfor _ in\b', 'for i__ in it__:', b)
         gname = None
         m = re.search(r'let mut (\w+) = SetLenOnDrop::new', b)
         if m:
@@ -612,7 +612,9 @@ class Rewriter:
         if gm:
             gname = gm.group(1)
             b = self.sub('R16:guard-new', r'SetLenOnDrop::new\(\s*&mut self\.len\s*\)', 'SetLenOnDrop::new(self.len)', b)
-            b = self.sub('R16:for-underscore', r'\bfor _ in\b', 'for i__ in', b)
+            # the loop counter is unused in the real code: name Verus' ghost iterator so that invariants can count ITERATIONS (it__.index)
+            # instead of depending on how the range expression is written
+            b = self.sub('R16:for-underscore', r'\bfor _ in\b', 'for i__ in it__:', b)
             mm = mask(b)
             k = mm.index('let mut %s = SetLenOnDrop::new' % gname)
             depth, j = 0, k
